@@ -534,6 +534,15 @@ HOSTILE = [
 ]
 
 
+# near-miss / look-alike function names: the whitelist must be exactly {all, any}
+_NEAR = sorted({'allany'[i:j] for i in range(6) for j in range(i + 1, 7)} - {'all', 'any'})
+_NEAR += ['All', 'ANY', 'Any', 'aLL', 'any_', '_all', 'all_', '_any', 'aall', 'anyy', 'alll', 'al1', 'any2', 'a11',
+          'allall', 'anyany', 'anyall', 'min', 'max', 'sum', 'len', 'bool', 'list', 'tuple', 'set', 'sorted',
+          'filter', 'map', 'next', 'iter', 'callable', 'type', 'vars', 'dir', 'id', 'hash', 'repr', 'str', 'int',
+          'abs', 'any.__call__', 'all.__self__']
+HOSTILE += [n + '({q})' for n in _NEAR] + [n + '({q}) and {r}' for n in _NEAR[:20]] + ['all(' + n + '({q}))' for n in _NEAR[:20]]
+
+
 class AppFormulaSuite(AppSuiteBase):
     name = 'appstatus_formulas'
     # no known-finding class is left (all F14 classes fixed by /repo 67529b2): every violation is reported
